@@ -436,8 +436,9 @@ def _conditions():
     conds.append({"fn": "e2e_equiv", "tiers": ("quick",), "slices": [{"ps": k} for k in (0, 2, 5, 9, 13, 17, 18, 21, 23, 28, 30, 31, 32)], "tcond": 400, "tpath": 20,
                   "bound": "run_to_completion on `match Ev(p=<pattern>)` for 13 pattern shapes with fixed leaves; payload shape/leaves symbolic; 0-2 extra params; other event name",
                   "smoke": [{"slice": {"ps": 5}, "args": {"vs": 6, "w0": 1, "w1": 0, "w2": 2, "vs0": "a", "vs1": "", "extra": 1, "other_name": False}}]})
-    conds.append({"fn": "e2e_equiv", "tiers": ("thorough",), "slices": allp, "tcond": 900, "tpath": 20,
-                  "bound": "run_to_completion on `match Ev(p=<pattern>)` for all 35 pattern shapes"})
+    # the empty set (shape 7) has no Colang literal (`{}` is the empty dict), so it cannot be written into a program: unit level only
+    conds.append({"fn": "e2e_equiv", "tiers": ("thorough",), "slices": [x for x in allp if x.get("ps") != 7], "tcond": 900, "tpath": 20,
+                  "bound": "run_to_completion on `match Ev(p=<pattern>)` for the 34 pattern shapes that have a Colang literal (all but the empty set)"})
     conds.append({"fn": "e2e_instance", "slices": [{}], "tcond": 300, "tpath": 20,
                   "bound": "two instances of one flow and of one action; statement bound to the second instance; events of either instance / a foreign uid / no uid",
                   "smoke": [{"slice": {}, "args": {"which": 1, "x": 0, "uidk": 1}}]})
